@@ -438,6 +438,8 @@ class Respondent(httping.Parsent):
                     leaderParser.close()
                     break
                 (yield None)
+            # new generator for start line of the response after the 100 continue
+            lineParser = httping.parseLine(raw=self.msg, eols=(CRLF, LF), kind="status line")
 
         self.code = self.status = status
         self.reason = reason.strip()
